@@ -32,7 +32,10 @@ class Crash(BaseException):
     """Bert-E dies here: nothing later in this job happens."""
 
 
-class Comment:
+from .common import HostNames
+
+
+class Comment(HostNames):
     def __init__(self, cid, author, text):
         self.id = cid
         self.author = author
@@ -42,7 +45,7 @@ class Comment:
         return '<%s: %s>' % (self.author, self.text[:60])
 
 
-class HPR:
+class HPR(HostNames):
     """Pull request of the history host (both back ends)."""
 
     def __init__(self, host, pid, src, dst, author='contributor', description=''):
@@ -295,7 +298,8 @@ class SymSession(BaseSession):
     """History on the symbolic repository."""
 
     def __init__(self, ctx, shape, prs, mode, no_octopus=True, nfresh=40, extra_refs=(),
-                 with_w=False, natoms=None, settings=None, monitors=(), fresh_prs=True):
+                 with_w=False, natoms=None, settings=None, monitors=(), fresh_prs=True,
+                 green=False, no_conflicts=False):
         self.ctx = ctx
         refs = list(shape) + [p.src for p in prs] + list(extra_refs)
         if with_w:
@@ -307,6 +311,8 @@ class SymSession(BaseSession):
         repo = SymRepo(ctx, refs + qrefs, natoms, nfresh)
         repo.content_keyed = True
         repo.log_cut = True
+        repo.no_conflicts = no_conflicts      # bound of some histories: merges never conflict
+        self.green = green                    # bound of some histories: every build is green
         GF.assume_inclusion(ctx, repo, shape)
         for d in shape:
             if 'q/' + GF.version_of(d) in repo.remote:
@@ -407,6 +413,8 @@ class SymSession(BaseSession):
             c = r.content(sha.idx)
             t = r.statusC(c)
             r.ctx.assume(z3.And(t >= 0, t < 3))
+            if self.green:
+                r.ctx.assume(t == OK)
             self.status_queries.append((c, t))
         return SEnum(t, symgit.STATUSES)
 
